@@ -14,12 +14,33 @@ from .gamma import Gamma
 FAMS = [("ints", "int"), ("str", "int"), ("mixed", "int"), ("numstr", "int"), ("shift", "int"), ("mixed", "int"), ("numstr", "int")]
 
 
-def observe(tag, j, g, rng, n_orient):
+class BigGamma:
+    """plain integer labels of any size (instances beyond the bounded id universe)"""
+    prev = None
+    name = "bigints/int"
+
+    def node(self, k):
+        return int(k)
+
+    def edge(self, k):
+        return int(k)
+
+    def inv_node(self, x):
+        return int(x)
+
+    def inv_edge(self, x):
+        return int(x)
+
+    def inv_attrs(self, d, table="n"):
+        return []
+
+
+def observe(tag, j, g, rng, n_orient, explicit=None):
     S = xgi.SimplicialComplex()
     S.add_nodes_from([g.node(n) for n in j["nodes"]])
     simplices = [[g.node(n) for n in m] for m in j["e2n"] if m]
     rng.shuffle(simplices)
-    explicit = rng.random() < 0.5
+    explicit = (rng.random() < 0.5) if explicit is None else explicit
     with warnings.catch_warnings():
         warnings.simplefilter("ignore")
         # one add_simplex per generator: the bulk formats are sniffed from the first item and are
@@ -89,7 +110,7 @@ def run(tier, seed_):
     # one high-degree complex: a hub joined to 130 others (entries of B^T B beyond one byte)
     hub = {"nodes": list(range(131)), "edges": list(range(130)), "e2n": [[0, k] for k in range(1, 131)],
            "n2e": [], "nak": [], "eak": [], "nattr": [], "eattr": [], "gattr": [], "uid": 130, "frozen": False}
-    recs += observe("hub", hub, Gamma("ints", "int"), random.Random(seed_), 2)
+    recs += observe("hub", hub, BigGamma(), random.Random(seed_), 2, explicit=False)
     log(f"[C13] {len(recs)} (complex, orientation) pairs from {len(shapes)} TLC-enumerated generator sets ({t():.0f}s)")
 
     def selftest(records, bad):
